@@ -18,7 +18,11 @@ def plan(tier, seed):
     from mc import universe as U
 
     land = [{'land': k, 'stokes': s, 'dt': d} for k in ('healpix', 'frequency', 'custom') for s in ('I', 'QU', 'IQU', 'IQUV') for d in ('f32', 'f64')]
+    import itertools
+
+    seqs = [{'shared_jit': list(p_)} for p_ in itertools.permutations(['2', '2.0', '2+0j', '-1', 'neg', '-1.0'], 3)]
     return [
+        {'name': 'shared_jit', 'target': TARGET, 'x64': False, 'cases': seqs, 'chunk': 10},
         {'name': 'x32', 'target': TARGET, 'x64': False, 'cases': U.cases(tier, ('f32',), modulus=8)},
         {'name': 'x64', 'target': TARGET, 'x64': True, 'chunk': 3,
          'cases': U.cases(tier, ('f64',), modulus=8) if tier == 'thorough' else [c for c in U.cases(tier, ('f64',)) if 'b' not in c]},
@@ -165,8 +169,49 @@ def landscape_case(case):
     return probs
 
 
+def shared_jit_case(case):
+    """ONE filter_jit function receives, in the given order, operators that differ only in the Python kind of a scalar factor.
+    Each result must equal eager application (values, dtype) whatever was compiled before."""
+    import equinox
+    import jax
+    import jax.numpy as jnp
+    import numpy as np
+
+    from furax._base.dense import DenseBlockDiagonalOperator
+    from mc import probe as P
+
+    probs = []
+    for dt in (jnp.float32, jnp.int32):
+        a = jax.ShapeDtypeStruct((2,), dt)
+        A = DenseBlockDiagonalOperator(jnp.asarray([[1, 2], [3, 5]], dt), a, 'ij,j->i')
+        mk = {'2': lambda: 2 * A, '2.0': lambda: 2.0 * A, '2+0j': lambda: (2 + 0j) * A, '-1': lambda: (-1) * A, 'neg': lambda: -A, '-1.0': lambda: (-1.0) * A}
+        fj = equinox.filter_jit(lambda o, x: o.mv(x))
+        x = jnp.asarray([3, -7], dt)
+        for name in case['shared_jit']:
+            op = mk[name]()
+            ye = P.lib('eager', op.mv, x)
+            yj = P.lib('filter_jit', fj, op, x)
+            if np.asarray(yj).dtype != np.asarray(ye).dtype or not np.array_equal(np.asarray(yj), np.asarray(ye)):
+                probs.append(('shared-filter_jit', f'data {np.dtype(dt)}, sequence {case["shared_jit"]}: ({name}) * A gives {np.asarray(yj).dtype} {np.asarray(yj)} through the shared jitted function but {np.asarray(ye).dtype} {np.asarray(ye)} eagerly'))
+                break
+    return probs
+
+
 def run(phase, cases, ctx):
     from mc import unirun
+
+    if phase == 'shared_jit':
+        violations = []
+        for case in cases:
+            try:
+                for kind, detail in shared_jit_case(case):
+                    violations.append({'kind': kind, 'case': case, 'detail': detail})
+            except Exception as e:  # noqa: BLE001
+                from mc import probe as P
+
+                err = e if isinstance(e, P.LibError) else P.LibError('shared jit', e)
+                violations.append({'kind': 'library-raises', 'case': case, 'detail': f'{err}\n{err.tb}'})
+        return {'n': len(cases), 'violations': violations, 'landscape_cases': 0, 'shared_jit_sequences': len(cases)}
 
     if phase.startswith('land'):
         violations = []
@@ -180,9 +225,10 @@ def run(phase, cases, ctx):
 def finalize(results, tier, seed):
     from mc import unirun
 
-    ops = {k: v for k, v in results.items() if not k.startswith('land')}
+    ops = {k: v for k, v in results.items() if not k.startswith('land') and k != 'shared_jit'}
     cov = unirun.coverage(ops, 'one case = a specimen or an ordered pair (all composite forms) x {flatten/unflatten, jit over a closure, '
                           'filter_jit with the operator as argument} x 64-bit mode; landscapes: 3 classes x 4 Stokes kinds x dtype; all non-trivial')
     cov['landscape_cases'] = sum(v.get('landscape_cases', 0) for k, v in results.items() if k.startswith('land'))
     cov['cases'] += cov['landscape_cases']
+    cov['shared_jit_sequences'] = results['shared_jit'].get('shared_jit_sequences', 0)
     return {'coverage': cov, 'violations': [], 'assumptions': ['boolean-mask selection excluded from the filter_jit-as-argument claim, as the property states']}
